@@ -53,4 +53,13 @@ PROPS = {
         ],
         assumptions=["the per-page guess of a flipped Y axis (content exceeding the page) is modelled as written; the running-header predicate of the harness is evaluated on ordinary PDF coordinates only"],
     ),
+    "C14": dict(
+        gen=[],
+        trusted=[
+            "encoding/json's text layer is an oracle (json_parse(json_print v) = v on valid UTF-8): the model produces the JSON value of each record (struct fields with omitempty, metadata map) and the harness compares it with Go's output parsed by encoding/json; encoding/csv.Writer is modelled byte-exactly (UseCRLF=false) and compared byte for byte",
+            "the RFC 4180 reader is my transcription of the RFC (quoted fields may contain the delimiter, doubled quotes, CR, LF; LF or CRLF ends a record); it is extracted and also run on the implementation's output, and cross-checked against a second reader written in Go",
+            "modelled: Exporter.prepareChunkForExport, chunkMetadataToMap, filterMetadata, collectCSVColumns, isStandardColumn, chunkToCSVRow, getColumnValue, formatValue, exportCSV; BatchExporter.Export; ChunkCollection.Filter and FilterByPage/PageRange/Section/MinTokens/MaxTokens/WithTables/WithLists/WithImages. Not modelled (property predicates on the implementation only): StreamExporter, EmbeddingExporter record builders, Search, FilterByElementType",
+        ],
+        assumptions=["chunk strings are valid UTF-8 (invalid bytes would be replaced by U+FFFD in JSON)"],
+    ),
 }
